@@ -484,6 +484,18 @@ def main(argv):
         f'axioms={proof["axioms"]} ({time.time() - t0:.1f}s)')
     if not proof['ok']:
         log(proof['log'][-2500:])
+    coqchk_note = None
+    if tier == 'thorough' and proof['ok']:
+        # independent re-check of the compiled property file and everything it depends on
+        with CoqLock():
+            rc_chk, out_chk = _run(['coqchk', '-o', '-Q', '.', 'Replicat', f'Replicat.Props.{pid}'], cwd=str(COQ), timeout=1500)
+        m = re.search(r'\* Axioms:(.*?)\n\s*\n\* Constants', out_chk, re.S)
+        ax = ' '.join(m.group(1).split()) if m else '?'
+        coqchk_note = f'coqchk -o Replicat.Props.{pid}: ' + ('Modules were successfully checked; axioms: ' + ax if rc_chk == 0 else 'FAILED')
+        log(coqchk_note)
+        if rc_chk != 0:
+            proof['ok'] = False
+            proof['log'] += '\n[coqchk failed]\n' + out_chk[-1500:]
     lines, exit_code, nviol = [], 0, 0
     with Scratch(pid) as sc:
         ctx = Ctx(pid, tier, seed, sc, random.Random(seed))
@@ -546,7 +558,7 @@ def main(argv):
         'input_distribution': rep.dist,
         'disagreements': len(rep.disagreements),
         'known_findings_seen': sorted(seen_known),
-        'notes': rep.notes,
+        'notes': rep.notes + ([coqchk_note] if coqchk_note else []),
     }
     coverage.update(rep.extra)
     write_evidence(pid, tier, seed, level, coverage, reg.get('assumptions', []), wall, nviol)
